@@ -563,7 +563,275 @@ theorem C12_gen_skel_obj_events :
       ["return builder_.obj(obj_index).set_linear_expr(num_linear_terms)"] ∧
     ObjFilter.skel_SolverNLHandler_notify_obj_added = ["call solver_.notify_obj_added()"] := ⟨rfl, rfl, rfl⟩
 
+/-! ### Round 4: option setters, uses of the filter in the NL reader, name indices, delivery loops -/
+
+theorem C12_gen_GetObjNo (raw : Int) : ObjFilter.GetObjNo raw = ObjFilter.objno_specified raw := rfl
+
+/-- `BoolOption::SetValue` (the `obj:multi` setter, src/solver.cc) is the model's `setOpt … (.multi v)`: rejects everything
+    but 0/1, stores `v ≠ 0` -/
+theorem C12_gen_BoolOption_SetValue (s : Solver) (v : Int) :
+    ObjFilter.BoolOption_SetValue v = (match setOpt s (.multi v) with
+      | .error _ => .throw
+      | .ok s' => .ret (bi s'.multiFlag)) := by
+  have c0 : conv tLL 0 = 0 := by decide
+  have c1 : conv tLL 1 = 1 := by decide
+  by_cases h0 : v = 0
+  · subst h0; simp [ObjFilter.BoolOption_SetValue, c0, c1, cne, cand, setOpt, bi, tobool, Outcome.bind]
+  · by_cases h1 : v = 1
+    · subst h1; simp [ObjFilter.BoolOption_SetValue, c0, c1, cne, cand, setOpt, bi, tobool, Outcome.bind]
+    · simp [ObjFilter.BoolOption_SetValue, c0, c1, cne, cand, setOpt, h0, h1, tobool, Outcome.bind]
+
+/-- `ObjHandler::SkipExpr` (guard of the `G` segments) is the negation of the model's `needObj` -/
+theorem C12_gen_SkipExpr (multi : Bool) (k idx : Nat) (hk : (k : Int) ≤ 2147483647) :
+    ObjFilter.ObjHandler_SkipExpr idx (bi multi) k = .ret (bi (!needObj multi k idx)) := by
+  simp only [ObjFilter.ObjHandler_SkipExpr, C12_gen_NeedObj multi k idx hk, Outcome.bind_ret]
+  cases needObj multi k idx <;> simp [bi, cnot]
+
+/-- guard of the `O` segments (`case 'O'` of `NLReader::Read`) is the model's `needObj` -/
+theorem C12_gen_caseO_guard (multi : Bool) (k idx : Nat) (hk : (k : Int) ≤ 2147483647) :
+    ObjFilter.caseO_guard idx (bi multi) k = .ret (bi (needObj multi k idx)) :=
+  C12_gen_NeedObj multi k idx hk
+
+/-- the slot an `O` resp. `G` segment is written to is the model's `resultingObjIndex` -/
+theorem C12_gen_segment_slots (multi : Bool) (idx : Nat) :
+    ObjFilter.caseO_slot idx (bi multi) = .ret ((resultingObjIndex multi idx : Nat) : Int) ∧
+    ObjFilter.ObjHandler_OnLinearExpr_slot idx (bi multi) = .ret ((resultingObjIndex multi idx : Nat) : Int) :=
+  ⟨C12_gen_resulting_obj_index multi idx, C12_gen_resulting_obj_index multi idx⟩
+
+/-- `.row` indices `a, a+1, …, b-1` -/
+def rowsFromTo (a b : Int) : List Int := (List.range (b - a).toNat).map (fun (j : Nat) => a + (j : Int))
+
+/-- `SetObjNames`: guard and loop bounds generated from the source give exactly the model's `objRowIdx` -/
+theorem C12_gen_SetObjNames (st : St) (numCons : Nat) (h : rawInRange st.solver.objnoRaw)
+    (hb : (numCons : Int) + st.objs.length + objnoUsed st.solver ≤ 2147483647) :
+    ObjFilter.SetObjNames_guard st.objs.length = .ret (if st.objs.length = 0 then 0 else 1) ∧
+    ∃ a b : Int,
+      ObjFilter.SetObjNames_first numCons (bi st.solver.optsRead) (bi st.solver.objAdded) st.solver.objnoRaw
+        (bi st.solver.multiFlag) st.objs.length = .ret a ∧
+      ObjFilter.SetObjNames_end numCons (bi st.solver.optsRead) (bi st.solver.objAdded) st.solver.objnoRaw
+        (bi st.solver.multiFlag) st.objs.length = .ret b ∧
+      objRowIdx numCons st = if st.objs.length = 0 then [] else rowsFromTo a b := by
+  constructor
+  · by_cases hl : st.objs.length = 0 <;> simp [ObjFilter.SetObjNames_guard, tobool, hl]
+  · have hu := C12_gen_objno_used st.solver h
+    have hm := C12_gen_multiobj st.solver
+    have hused : (0 : Int) ≤ objnoUsed st.solver := by omega
+    cases hmulti : multiobj st.solver with
+    | true =>
+      refine ⟨numCons, (numCons : Int) + st.objs.length, ?_, ?_, ?_⟩
+      · have a1 : arith tI ((objnoUsed st.solver : Int) - 1) = .ret ((objnoUsed st.solver : Int) - 1) := arith_tI (by omega) (by omega)
+        have a2 : arith tI ((objnoUsed st.solver : Int) - 1 + 1) = .ret ((objnoUsed st.solver : Int) - 1 + 1) := arith_tI (by omega) (by omega)
+        have a3 : arith tI ((numCons : Int) + 0) = .ret ((numCons : Int) + 0) := arith_tI (by omega) (by omega)
+        simp only [ObjFilter.SetObjNames_first, hu, hm, Outcome.bind_ret, csub, cadd, a1, a2, hmulti]
+        have n1 : arith tI (numCons : Int) = .ret (numCons : Int) := arith_tI (by omega) (by omega)
+        have n2 : arith tI ((numCons : Int) + (objnoUsed st.solver : Int)) = .ret ((numCons : Int) + (objnoUsed st.solver : Int)) := arith_tI (by omega) (by omega)
+        simp [bi, a3, n1, n2]
+      · have a1 : arith tI ((objnoUsed st.solver : Int) - 1) = .ret ((objnoUsed st.solver : Int) - 1) := arith_tI (by omega) (by omega)
+        have a2 : arith tI ((objnoUsed st.solver : Int) - 1 + 1) = .ret ((objnoUsed st.solver : Int) - 1 + 1) := arith_tI (by omega) (by omega)
+        have a3 : arith tI ((numCons : Int) + (st.objs.length : Int)) = .ret ((numCons : Int) + (st.objs.length : Int)) := arith_tI (by omega) (by omega)
+        simp only [ObjFilter.SetObjNames_end, hu, hm, Outcome.bind_ret, csub, cadd, a1, a2, hmulti]
+        have n1 : arith tI (numCons : Int) = .ret (numCons : Int) := arith_tI (by omega) (by omega)
+        have n2 : arith tI ((numCons : Int) + (objnoUsed st.solver : Int)) = .ret ((numCons : Int) + (objnoUsed st.solver : Int)) := arith_tI (by omega) (by omega)
+        simp [bi, a3, n1, n2]
+      · by_cases hl : st.objs.length = 0
+        · simp [objRowIdx, hl]
+        · simp only [objRowIdx, hl, if_false, hmulti, if_true, rowsFromTo]
+          have : ((numCons : Int) + (st.objs.length : Int) - (numCons : Int)).toNat = st.objs.length := by omega
+          rw [this]
+          apply List.map_congr_left
+          intro i _
+          omega
+    | false =>
+      refine ⟨(numCons : Int) + ((objnoUsed st.solver : Int) - 1), (numCons : Int) + ((objnoUsed st.solver : Int) - 1 + 1), ?_, ?_, ?_⟩
+      · have a1 : arith tI ((objnoUsed st.solver : Int) - 1) = .ret ((objnoUsed st.solver : Int) - 1) := arith_tI (by omega) (by omega)
+        have a2 : arith tI ((objnoUsed st.solver : Int) - 1 + 1) = .ret ((objnoUsed st.solver : Int) - 1 + 1) := arith_tI (by omega) (by omega)
+        have a3 : arith tI ((numCons : Int) + ((objnoUsed st.solver : Int) - 1)) = .ret ((numCons : Int) + ((objnoUsed st.solver : Int) - 1)) := arith_tI (by omega) (by omega)
+        simp only [ObjFilter.SetObjNames_first, hu, hm, Outcome.bind_ret, csub, cadd, a1, a2, hmulti]
+        have n1 : arith tI (numCons : Int) = .ret (numCons : Int) := arith_tI (by omega) (by omega)
+        have n2 : arith tI ((numCons : Int) + (objnoUsed st.solver : Int)) = .ret ((numCons : Int) + (objnoUsed st.solver : Int)) := arith_tI (by omega) (by omega)
+        simp [bi, a3, n1, n2]
+      · have a1 : arith tI ((objnoUsed st.solver : Int) - 1) = .ret ((objnoUsed st.solver : Int) - 1) := arith_tI (by omega) (by omega)
+        have a2 : arith tI ((objnoUsed st.solver : Int) - 1 + 1) = .ret ((objnoUsed st.solver : Int) - 1 + 1) := arith_tI (by omega) (by omega)
+        have a3 : arith tI ((numCons : Int) + ((objnoUsed st.solver : Int) - 1 + 1)) = .ret ((numCons : Int) + ((objnoUsed st.solver : Int) - 1 + 1)) := arith_tI (by omega) (by omega)
+        simp only [ObjFilter.SetObjNames_end, hu, hm, Outcome.bind_ret, csub, cadd, a1, a2, hmulti]
+        have n1 : arith tI (numCons : Int) = .ret (numCons : Int) := arith_tI (by omega) (by omega)
+        have n2 : arith tI ((numCons : Int) + (objnoUsed st.solver : Int)) = .ret ((numCons : Int) + (objnoUsed st.solver : Int)) := arith_tI (by omega) (by omega)
+        simp [bi, a3, n1, n2]
+      · by_cases hl : st.objs.length = 0
+        · simp [objRowIdx, hl]
+        · simp only [objRowIdx, hl, if_false, hmulti, rowsFromTo]
+          have : ((numCons : Int) + ((objnoUsed st.solver : Int) - 1 + 1) - ((numCons : Int) + ((objnoUsed st.solver : Int) - 1))).toNat = 1 := by omega
+          rw [this]
+          simp
+
+/-- `case 'O'`: index bounded by the header count, guard `NeedObj`, slot `resulting_obj_index`, sense `type != 0 ↦ MAX` -/
+theorem C12_gen_skel_caseO : ObjFilter.skel_NLReader_caseO = [
+    "decl index := ReadUInt(header_.num_objs)",
+    "decl obj_type := reader_.ReadUInt()",
+    "call reader_.ReadTillEndOfLine()",
+    "decl expr := ReadNumericExpr(true)",
+    "if handler_.NeedObj(index) { call handler_.OnObj(handler_.resulting_obj_index(index), ((obj_type != 0) ? MAX : MIN), NLProblemBuilder(expr)) }",
+    "break"] := rfl
+
+/-- `case 'G'`: `ReadLinearExpr<ObjHandler>()`: index bounded by `num_items()`, skipped terms go to the null handler -/
+theorem C12_gen_skel_caseG : ObjFilter.skel_NLReader_caseG = [
+    "call ReadLinearExpr<ObjHandler>()",
+    "decl lh := NLReader(*(this))",
+    "decl index := ReadUInt(lh.num_items())",
+    "decl num_terms := ReadUInt(1, (header_.num_vars + 1))",
+    "call reader_.ReadTillEndOfLine()",
+    "if lh.SkipExpr(index) { call ReadLinearExpr(num_terms, NullLinearExprHandler()) } else { call ReadLinearExpr(num_terms, lh.OnLinearExpr(index, num_terms)) }"] := rfl
+
+/-- every problem objective `i` is converted, in order (flattener), and pushed as flat objective `i` (model `delivered`);
+    the `.sol` line prints `objno() - 1` (model `solObjnoLine`).  (`?` = a member name clang's dump of the uninstantiated
+    template does not carry.) -/
+theorem C12_gen_skel_delivery :
+    ObjFilter.skel_Flattener_objective_loop =
+      ["if decl num_objs := ?().num_objs() ; num_objs { for (decl i := 0 ; (i < num_objs) ; ++(i)) { call this.ExportObj(i) ; call this.Convert(?().obj(i)) } }"] ∧
+    ObjFilter.skel_FlatModel_PushObjectivesTo =
+      ["if decl n_objs := num_objs() ; n_objs { for (decl i := 0 ; (i < n_objs) ; ++(i)) { decl obj := get_obj(i) ; if obj.GetQPTerms().size() { call backend.SetQuadraticObjective(i, obj) } else { call backend.SetLinearObjective(i, obj) } ; call ExportObjective(i, obj) } }"] ∧
+    ObjFilter.skel_WriteSolFile_objno =
+      ["call file.?(\"objno {} {}\\n\", operator-(sol.objno(), 1), sol.status())"] := ⟨rfl, rfl, rfl⟩
+
+/-- `SetObjNames` as a whole: guard, index arithmetic, loop, name taken from `.row` entry `io` or generated `_sobj[io-num_c+1]` -/
+theorem C12_gen_skel_SetObjNames : ObjFilter.skel_SetObjNames = [
+    "if GetModel().num_objs() { decl num_c := GetModel().num_cons() ; decl o1 := (GetEnv().objno_used() - 1) ; decl o2 := (o1 + 1) ; if GetEnv().multiobj() { store o1 := 0 ; store o2 := GetModel().num_objs() } ; decl names_o := vector() ; for (decl io := (num_c + o1) ; (io < (num_c + o2)) ; ++(io)) { if (npco.number_read() > io) { call names_o.push_back(npco.name(io, default).operator basic_string()) } else { call names_o.push_back(operator+(operator+(\"_sobj[\", to_string(((io - num_c) + 1))), ']')) } } ; call GetModel().SetObjNames(vector(move(names_o))) }"] := rfl
+
 end GenTie
+
+/-! ## Statement audit (round 4): the error branches and the state invariant behind `List.modify` -/
+
+/-- **Option errors, both directions.**  A run ends with the setter's option error exactly when some option value is
+    not acceptable (negative `objno`, `multiobj` other than 0/1) - whatever the file contains. -/
+theorem C12_invalid_option (ops : List OptOp) (n : Nat) (segs : List Seg) :
+    readNL ops n segs = .error .invalidOption ↔ ¬ validOpts ops := by
+  constructor
+  · intro h hv
+    simp only [readNL] at h
+    cases hh : onHeader {} ops n with
+    | ok st0 =>
+      simp only [hh] at h
+      have := readSegs_error _ _ _ h
+      simp at this
+    | error e =>
+      simp only [hh] at h; simp at h; subst h
+      simp only [onHeader] at hh
+      cases hp : parseOpts { ({} : Solver) with optsRead := false } ops with
+      | error e' =>
+        obtain ⟨_, hbad⟩ := parseOpts_error _ _ _ hp
+        rcases hbad with ⟨v, hv1, hv2⟩ | ⟨v, hv1, hv2⟩
+        · have := hv.1 v hv1; omega
+        · have := hv.2 v hv1; omega
+      | ok s1 => simp only [hp] at hh; split at hh <;> simp at hh
+  · intro hnv
+    simp only [readNL, onHeader]
+    cases hp : parseOpts { ({} : Solver) with optsRead := false } ops with
+    | error e' =>
+      have := (parseOpts_error _ _ _ hp).1
+      subst this; rfl
+    | ok s1 =>
+      obtain ⟨_, _, _, _, p5, p6⟩ := parseOpts_ok _ _ _ hp
+      exact absurd ⟨p5, p6⟩ hnv
+
+/-- **Read errors, both directions.**  With acceptable options and an objective number that is not beyond the file,
+    the run fails (with the reader's error) exactly when an `O`/`G` segment carries an index that is not below the
+    header's objective count. -/
+theorem C12_read_error (ops : List OptOp) (n : Nat) (segs : List Seg) :
+    readNL ops n segs = .error .readError ↔
+      (validOpts ops ∧ (∀ k, givenObjno ops = some k → k ≤ n) ∧ ∃ sg ∈ segs, ∃ i, segIdx? sg = some i ∧ n ≤ i) := by
+  constructor
+  · intro h
+    simp only [readNL] at h
+    cases hh : onHeader {} ops n with
+    | error e =>
+      simp only [hh] at h; simp at h; subst h
+      simp only [onHeader] at hh
+      cases hp : parseOpts { ({} : Solver) with optsRead := false } ops with
+      | error e' => have := (parseOpts_error _ _ _ hp).1; simp [hp] at hh; subst hh; simp at this
+      | ok s1 => simp only [hp] at hh; split at hh <;> simp at hh
+    | ok st0 =>
+      simp only [hh] at h
+      obtain ⟨_, _, _, _, _, hchk, hv⟩ := header_ok hh
+      refine ⟨hv, ?_, readSegs_error_idx segs st0 _ h⟩
+      intro k hg
+      apply Classical.byContradiction
+      intro hgt
+      apply hchk
+      have hk0 : 0 ≤ k := hv.1 k (List.mem_of_getLast? (by simpa [givenObjno] using hg))
+      refine ⟨?_, by simp [hg]⟩
+      simp only [selK, hg, Option.getD_some]; omega
+  · intro ⟨hv, hk, sg, hsg, i, hi, hge⟩
+    obtain ⟨st0, h0⟩ := C12_accept ops n [] hv hk (by intro sg hsg; simp at hsg)
+    simp only [readNL] at h0 ⊢
+    cases hh : onHeader {} ops n with
+    | error e => simp [hh] at h0
+    | ok st1 =>
+      simp only [hh]
+      cases hr : readSegs n st1 segs with
+      | error e => rw [readSegs_error _ _ _ hr]
+      | ok st' =>
+        have := readSegs_ok_idx segs st1 st' hr sg hsg i hi
+        omega
+
+/-- **The objective slots.**  At every successful end of reading the problem holds exactly `resulting_nobj` objectives;
+    together with `C12_index_in_range` this is the guard under which the model's `List.modify` (a no-op outside the
+    list) and the code's unchecked `builder_.obj(i)` agree: a kept segment always addresses an existing slot. -/
+theorem C12_slot_count (ops : List OptOp) (n : Nat) (segs : List Seg) (st : St)
+    (h : readNL ops n segs = .ok st) :
+    st.objs.length = resultingNObj (selMulti ops) (selK ops) n := by
+  simp only [readNL] at h
+  cases hh : onHeader {} ops n with
+  | error e => simp [hh] at h
+  | ok st0 =>
+    simp only [hh] at h
+    obtain ⟨_, _, _, _, hobjs, _, _⟩ := header_ok hh
+    rw [readSegs_length segs st0 st h, hobjs, List.length_replicate]
+
+-- non-trivial instances of the hypotheses / both directions
+section AuditExamples
+/-- three objectives used in the examples: `min e1`, `max e2 + 3 x0`, `min x1` -/
+def exObjs : List Obj := [⟨false, 1, []⟩, ⟨true, 2, [(0, 3)]⟩, ⟨false, 0, [(1, 1)]⟩]
+-- C12_select / C12_echo / C12_names / C12_slot_count: a run that delivers (objno=2 of 3, multiobj=1 also given)
+example : ∃ st, readNL [.multi 1, .objno 2] 3 (encode exObjs) = .ok st ∧ delivered st = [⟨true, 2, [(0, 3)]⟩] ∧
+    solObjnoLine st = 1 ∧ objRowIdx 4 st = [5] ∧ st.objs.length = 1 := ⟨_, rfl, by decide, by decide, by decide, by decide⟩
+-- C12_unselected_inert: two different files that agree on objective 2 (segments of objectives 1 and 3 differ, order differs)
+example : ∃ st st', readNL [.objno 2] 3 (encode exObjs) = .ok st ∧
+    readNL [.objno 2] 3 [Seg.G 1 [(0, 3)], Seg.O 2 true 9, Seg.other, Seg.O 1 true 2, Seg.O 0 true 7, Seg.G 0 [(5, 5)]] = .ok st' ∧
+    delivered st = delivered st' ∧ delivered st = [⟨true, 2, [(0, 3)]⟩] := ⟨_, _, rfl, rfl, by decide, by decide⟩
+-- C12_reject (⇐ of the pair): valid options, objno 4 of 3;   C12_reject_only (⇒): the error does occur and the number is beyond
+example : validOpts [.multi 1, .objno 4] ∧ givenObjno [.multi 1, .objno 4] = some 4 ∧
+    readNL [.multi 1, .objno 4] 3 (encode exObjs) = .error .objnoOutOfRange := by
+  refine ⟨⟨?_, ?_⟩, by decide, rfl⟩ <;> (intro v hv; simp [objnoVals, multiVals] at hv; omega)
+-- C12_accept: valid options, number within range, indices in range - and a model is delivered
+example : validOpts [.objno 3, .multi 0] ∧ (∀ k, givenObjno [.objno 3, .multi 0] = some k → k ≤ (3 : Nat)) ∧
+    (∀ sg ∈ encode exObjs, ∀ i, segIdx? sg = some i → i < 3) ∧ ∃ st, readNL [.objno 3, .multi 0] 3 (encode exObjs) = .ok st := by
+  refine ⟨⟨?_, ?_⟩, ?_, encode_idx exObjs, ⟨_, rfl⟩⟩
+  · intro v hv; simp [objnoVals] at hv; omega
+  · intro v hv; simp [multiVals] at hv; omega
+  · intro k hk; simp [givenObjno, objnoVals] at hk; omega
+-- C12_invalid_option, both directions
+example : ¬ validOpts [.objno 1, .multi 2] ∧ readNL [.objno 1, .multi 2] 3 (encode exObjs) = .error .invalidOption := by
+  refine ⟨?_, rfl⟩
+  intro h; have := h.2 2 (by simp [multiVals]); omega
+example : validOpts [.objno 1] ∧ readNL [.objno 1] 3 (encode exObjs) ≠ .error .invalidOption := by
+  refine ⟨⟨?_, ?_⟩, ?_⟩
+  · intro v hv; simp [objnoVals] at hv; omega
+  · intro v hv; simp [multiVals] at hv
+  · intro h
+    obtain ⟨st, hst⟩ : ∃ st, readNL [.objno 1] 3 (encode exObjs) = .ok st := ⟨_, rfl⟩
+    rw [hst] at h; cases h
+-- C12_read_error, both directions (an `O` segment with index 3 in a file that declares 3 objectives)
+example : readNL [] 3 (encode exObjs ++ [Seg.O 3 false 4]) = .error .readError := rfl
+example : readNL [] 3 (encode exObjs) ≠ .error .readError := by
+  intro h
+  obtain ⟨st, hst⟩ : ∃ st, readNL [] 3 (encode exObjs) = .ok st := ⟨_, rfl⟩
+  rw [hst] at h; cases h
+-- C12_index_in_range: a kept segment in single mode (k = 2, idx = 1, n = 3) and in multi mode
+example : needObj false 2 1 = true ∧ resultingObjIndex false 1 < resultingNObj false 2 3 := by decide
+example : needObj true 1 2 = true ∧ resultingObjIndex true 2 < resultingNObj true 1 3 := by decide
+-- hypotheses of the generated-tie theorems: the default and a given objective number are in range
+example : rawInRange (-1) ∧ rawInRange 5 := by constructor <;> (constructor <;> decide)
+end AuditExamples
 
 /-! ### non-vacuity: concrete runs of the model -/
 
